@@ -51,6 +51,14 @@ func genC12(c *Ctx) *Plan {
 		p.Cfg.Label = strings.Repeat("x", r.pick(1, 17, 255))
 	}
 	p.Cfg.PushPullMs = 1000
+	if p.Cfg.Encrypt > 0 && r.chance(0.3) {
+		// encryption roll-out mode: keys installed, traffic still sent and accepted in clear
+		p.Cfg.VerifyIncoming, p.Cfg.VerifyOutgoing = false, false
+		if r.chance(0.5) {
+			p.Cfg.DisableTcpPings = true
+		}
+		p.P["rollout"] = 1
+	}
 	p.P["multikey"] = int64(r.intn(2))
 	p.P["v6"] = int64(r.pick(0, 0, 1))
 	n := p.N
@@ -100,6 +108,16 @@ func genC12(c *Ctx) *Plan {
 			p.Ops = append(p.Ops, Op{At: at, Kind: "bcast", Node: a, Buf: pl})
 		}
 	}
+	// bursts: several reliable messages reach the same receiver at the same instant, so that
+	// the scheduler interleaves concurrent inbound stream handlers
+	for b := 0; b < r.rangeI(0, 2); b++ {
+		at := base + r.i64n(dur)
+		to := r.intn(n)
+		for j := 0; j < r.rangeI(2, 5); j++ {
+			from := (to + 1 + r.intn(n-1)) % n
+			p.Ops = append(p.Ops, Op{At: at + int64(j), Kind: "sendrel", Node: from, B: int64(to), Buf: c12Payload(r, fmt.Sprintf("R%d_%d", 900+b, j), p.Cfg.UDPBuf)})
+		}
+	}
 	for i := 0; i < r.rangeI(0, 4); i++ {
 		ml := r.pick(0, 1, 100, 511, 512)
 		p.Ops = append(p.Ops, Op{At: base + r.i64n(dur), Kind: "update", Node: r.intn(n), A: 3000, S: string(r.bytes(ml))})
@@ -112,6 +130,14 @@ func genC12(c *Ctx) *Plan {
 func execC12(c *Ctx) {
 	p := c.Plan
 	cx := startClusterRun(c, newEventMon(), &healthMon{}, &c04mon{})
+	if p.param("rollout", 0) == 1 {
+		c.Reach("encryption_rollout_mode")
+	}
+	// a stream handler may be descheduled for a moment right after the label stage while other
+	// inbound streams are accepted (far below any protocol timeout)
+	c.Sim.freezeSites = map[string]bool{"conn": true}
+	c.Sim.freezeProb = 0.3
+	c.Sim.freezeMax = 300 * time.Microsecond
 	if p.param("v6", 0) == 1 {
 		for _, n := range cx.cl.nodes {
 			n.ip = net.ParseIP(fmt.Sprintf("fd00::%x", 0x10+n.idx))
@@ -243,6 +269,7 @@ func execC12(c *Ctx) {
 			break
 		}
 	}
+	c.ReachN("stream_handler_descheduled", c.Sim.frozen)
 	c.Res.Nontrivial = delivered > 0
 	c.Stat("user_messages_delivered", int64(delivered))
 	var sizes []int
